@@ -17,3 +17,6 @@ claim("C04", "model_checking", "explicit reachability over segment states (New +
 claim("C11", "model_checking", "explicit reachability over segment states; footer/CRC invariants and byte-exact re-persist on every state",
       "Same reachable set as C04; on every state: 44-byte footer present, trailing CRC-32/IEEE equals the CRC of all preceding bytes, footer fields equal the loaded segment's accessors, byte count exact, and Load(bytes).WriteTo reproduces the file byte for byte (memory- and file-backed, two rounds).",
       TRUST, "DESIGN.md 5 C11", E1)
+claim("C18", "model_checking", "bounded-exhaustive enumeration of (segment, term list) on the real DocsMatchingTerms vs model union",
+      "Every list of <=3 (thorough <=4) (field, term) pairs over known/unknown/empty fields and general/1-hit/absent terms, repeats and field switches included, on every built, loaded and self-merged MIX segment: the returned bitmap equals the model's union; no error, no panic.",
+      TRUST, "DESIGN.md 5 C18", E1)
